@@ -57,6 +57,7 @@ type Vol struct {
 }
 
 type URR struct {
+	Lost   bool   `json:"lost,omitempty"` // remove: the data plane has lost the rule before (its removal fails with ENOENT)
 	Verb   string `json:"verb"` // create update remove
 	SEID   uint64 `json:"seid"`
 	ID     uint32 `json:"id"`
@@ -687,6 +688,11 @@ func checkURRs(us []URR) (v *vcore.Violation, perioChecks int) {
 		case "update":
 			_, _ = d.G.UpdateURR(u.SEID, stack.OffWire(u.IE(u.Order)))
 		case "remove":
+			if u.Lost {
+				// the data plane no longer has the rule: its removal fails there - the URR is gone all the same, and with it
+				// whatever was arranged for it on this side
+				d.K.Forget(simkernel.RuleKey{Kind: "URR", SEID: u.SEID, ID: uint64(u.ID)})
+			}
 			_, _ = d.G.RemoveURR(u.SEID, u.IE(nil))
 		}
 		if u.Verb != "remove" {
@@ -890,6 +896,7 @@ func genURRs(t *rapid.T) []URR {
 		}
 		if u.Verb == "remove" {
 			delete(exists, k)
+			u.Lost = rapid.IntRange(0, 3).Draw(t, "lost") == 0
 		}
 		out = append(out, u)
 	}
